@@ -40,7 +40,7 @@ func AnalysisJava() []core_domain.CodeDataStruct {
 
 	if analysisCmdConfig.UpdateIdentify {
 		identifierApp := javaapp.NewJavaIdentifierApp()
-		iNodes := identifierApp.AnalysisPath(importPath)
+		iNodes = identifierApp.AnalysisPath(importPath)
 
 		identModel, _ := json.MarshalIndent(iNodes, "", "\t")
 		cmd_util.WriteToCocaFile("identify.json", string(identModel))
